@@ -4,6 +4,7 @@ import Proofs.Walk
 import Proofs.Visits
 import Proofs.EarliestFit
 import Proofs.TeamFit
+import Proofs.AltFit
 import Proofs.EffortGlobal
 import Proofs.WFCheck
 /-!
@@ -167,5 +168,24 @@ theorem round_adds_only_own_entries (e : Env) (wf : WF e) (σ : St) (t0 : Nat) (
     (hlf : (e.taskD t0).leaf = true) (h : Owned S σ) : Owned (t0 :: S) (scheduleTask e σ t0).1 :=
   closed_scheduleTask (owned_closed e (t0 :: S)) wf σ t0 hinv hlf List.mem_cons_self
     (h.mono (fun x hx => List.mem_cons_of_mem _ hx))
+
+/-- **C07 for whole projects, tasks with an alternative** (`Proofs/AltFit`): with the SAME placement order as
+    `list_schedule_in_priority_order` and `team_earliest_fit` (one order for all three statements), every forward effort task
+    reported as scheduled with one primary and one alternative resource (both leaves), without a start of its own, occurs in the
+    order, is booked on ONE of its two candidates — the one `_selectBestResources` chose at its first slot — and on that one,
+    between the slot of its dependency bound and any slot in which it is booked, every slot in which the resource is on shift
+    and not on leave carries the task itself, or a task placed BEFORE it, or is refused by a limit. -/
+theorem alternative_earliest_fit (e : Env) (wf : WF e) (tr : Tree e) :
+    ∃ order rest : List Nat, Placement e (runScenario e) order rest ∧ DoneFitT e (runScenario e) order ∧
+      ∀ t r1 r2, EligAltU e t r1 r2 → ((runScenario e).tst t).scheduled = true → ((runScenario e).tst t).forward = true →
+        ∃ post pre, order = post ++ t :: pre ∧
+          ∃ r, (r = r1 ∨ r = r2) ∧ (∃ L, usageOf ((runScenario e).led.get r L).usage t ≠ none) ∧
+            ∀ L, usageOf ((runScenario e).led.get r L).usage t ≠ none →
+              ∀ i, boundSlot e (runScenario e) t ≤ i → i ≤ L → e.onShift r i = true → e.leaveMark r i = false →
+                usageOf ((runScenario e).led.get r i).usage t ≠ none ∨
+                (∃ t' ∈ pre, usageOf ((runScenario e).led.get r i).usage t' ≠ none) ∨ Exhausted e (runScenario e) t r i := by
+  obtain ⟨order, rest, hp, hT, hA⟩ := runScenario_placementA e wf tr
+  exact ⟨order, rest, hp, hT, fun t r1 r2 hel hs hf =>
+    hA t r1 r2 hel (runScenario_scheduled_done e t ⟨hel.el.leaf, hel.el.effort, hel.el.nomile⟩ hs) hf⟩
 
 end SP.C07
